@@ -154,6 +154,8 @@ pub fn eval(case: &J) -> Outcome {
             out.imp = json!({"rows": rows});
             out.aux = json!({"sql": sql});
         }
+        // two nodes given the same 4-character content-derived name (the recorded C16 / C17 finding): nothing to compare
+        Err(e) if e.contains("duplicate WITH table name") => { out.tag("trivial"); out.tag("cte-name-collision"); out.fail("C17/sqlite/pup-not-executable/cte-name-collision", format!("{sql}: {e}")); }
         Err(e) => { out.imp = json!("exec-error"); out.fail("C17/sqlite/pup-not-executable", format!("{sql}: {e}")); }
     }
     out
